@@ -196,7 +196,7 @@ theorem node_span_unique (L : List Span) (n n' : NodeInfo) (h : Good L n) (h' : 
 its first token to the last character of its last token (the empty string for a node that matched
 nothing), for `str` and list-of-lines input. -/
 theorem node_orig_text (cfg : Cfg) (re : Re) (inp : Input) (toks : List Tok)
-    (hre : ReIn re (tokLines ws inp)) (hne : tokLines ws inp ≠ [])
+    (hre : ReIn re (tokLines ws inp)) (hne : inp ≠ .lines [])
     (h : tokenize B cfg re (tokLines ws inp) = .ok toks) (q : Tok → Bool) (t : Tree) (k : Nat)
     (sp : Span) (k' : Nat) (all : List NodeInfo)
     (hs : spanT ((toks.filter q).map Tok.span) t k = .ok (sp, k', all))
@@ -207,7 +207,7 @@ theorem node_orig_text (cfg : Cfg) (re : Re) (inp : Input) (toks : List Tok)
   have hgood := (node_span cfg re _ toks h q t k sp k' all hs hk).2.2
   obtain ⟨_, hw, hpw, _⟩ := tok_monotone cfg re _ toks h
   rw [bases_std] at h ⊢
-  have hval := tokens_valid h hre hne
+  have hval := tokens_valid h hre (tokLines_ne_nil ws hne)
   intro n hn
   rw [← joinNl_origLines]
   apply good_orig ?_ ?_ ?_ (hgood n hn)
@@ -261,7 +261,7 @@ theorem parse_node_span (cfg : Cfg) (re : Re) (lines : List (List Char)) (toks :
 /-- … and `get_orig_text` of every node of such a tree is the text from the first character of its
 first token to the last character of its last token. -/
 theorem parse_node_orig_text (cfg : Cfg) (re : Re) (inp : Input) (toks : List Tok)
-    (hre : ReIn re (tokLines ws inp)) (hne : tokLines ws inp ≠ [])
+    (hre : ReIn re (tokLines ws inp)) (hne : inp ≠ .lines [])
     (h : tokenize B cfg re (tokLines ws inp) = .ok toks) (names : List (List Char)) (P : LL.Parser)
     (hP : parserOk P = true) (fuel : Nat) (t : PTree LL.Sym)
     (hrun : parseToks names cfg P toks fuel = some (.ok t)) :
@@ -433,11 +433,80 @@ example : tokenize B ⟨[], [], [], 0⟩
   decide +kernel
 example : getOrigText B (origLines (.str "\uFEFFab \r\ncd".toList)) ⟨1, 2⟩ ⟨1, 4⟩ = .ok "ab".toList := by
   decide +kernel
+/-! one instance of every conditional theorem: its hypotheses hold together on a concrete input -/
+
+/-- `node_span` / `node_orig_text`: the tree `(t (t (t (t e))))` over the tokens of `exInp` that are neither
+SPACE nor COMMENT (picked by their spans), `inp ≠ .lines []`, `ReIn`, `hs`, `hk` -/
+def exKeep : List Span := [⟨⟨1, 1⟩, ⟨1, 2⟩⟩, ⟨⟨3, 7⟩, ⟨3, 8⟩⟩, ⟨⟨4, 1⟩, ⟨4, 3⟩⟩, ⟨⟨4, 4⟩, ⟨4, 7⟩⟩, ⟨⟨4, 7⟩, ⟨4, 7⟩⟩]
+def exTree : Tree :=
+  .node (.cons .tok (.cons (.node (.cons .tok (.cons (.node (.cons .tok (.cons (.node
+    (.cons .tok (.cons .nul .nil))) .nil))) .nil))) .nil))
+example : ∃ toks sp k' all, tokenize B exCfg exRe (tokLines ws exInp) = .ok toks ∧
+    spanT ((toks.filter fun t => decide (t.span ∈ exKeep)).map Tok.span) exTree 0 = .ok (sp, k', all) ∧
+    (∀ n ∈ all, Good ((toks.filter fun t => decide (t.span ∈ exKeep)).map Tok.span) n) ∧
+    (∀ n ∈ all, ∃ r, getOrigText B (origLines exInp) n.span.s n.span.e = .ok r) := by
+  obtain ⟨toks, h, hsp⟩ := ex_tokens
+  have hL : (toks.filter fun t => decide (t.span ∈ exKeep)).map Tok.span = exKeep := by
+    have : (toks.filter fun t => decide (t.span ∈ exKeep)).map Tok.span =
+        (toks.map Tok.span).filter (fun s => decide (s ∈ exKeep)) := by
+      rw [List.filter_map]; rfl
+    rw [this, hsp]; decide +kernel
+  have hs : ∃ r, spanT exKeep exTree 0 = .ok r ∧ r.2.1 < exKeep.length := by
+    refine ⟨_, rfl, ?_⟩
+    decide +kernel
+  obtain ⟨⟨sp, k', all⟩, hs, hk⟩ := hs
+  refine ⟨toks, sp, k', all, h, by rw [hL]; exact hs, ?_, ?_⟩
+  · exact (node_span exCfg exRe _ toks h _ exTree 0 sp k' all (by rw [hL]; exact hs) (by rw [hL]; exact hk)).2.2
+  · intro n hn
+    obtain ⟨_, _, _, _, _, _, hr⟩ := node_orig_text exCfg exRe exInp toks ex_reIn (by simp [exInp]) h _ exTree 0 sp k' all
+      (by rw [hL]; exact hs) (by rw [hL]; exact hk) n hn
+    exact ⟨_, hr⟩
+/-- `lex_error_complete`: the start configuration is reachable and the pattern matches there -/
+example : ∃ m, exRe.norm 0 0 = some m := by
+  obtain ⟨toks, h, _⟩ := ex_tokens
+  exact lex_error_complete exCfg exRe _ toks h 0 0 "a /* x".toList .start (by decide +kernel) (by decide)
+/-- `no_out_of_fuel`: a matcher that advances everywhere (every character is a token) -/
+example : ReAdv ⟨fun _ c => some ⟨c + 1, 0, c, c + 1⟩, fun _ _ c => some ⟨c + 1, 0, c, c + 1⟩⟩ :=
+  ⟨by intro i c m h; cases h; simp, by intro k i c m h; cases h; simp⟩
+/-- `parse_error_pos`: `; foo` is rejected by `E → LABEL WORD NUM`, the error names the first token (1,1) -/
+example : (match LL.construct exCtor with
+    | .ok P => (parseToks exNames ⟨[], [], [], 0⟩ P
+        [⟨2, some ";".toList, ⟨1, 1⟩, ⟨1, 2⟩⟩, ⟨4, some "foo".toList, ⟨1, 3⟩, ⟨1, 6⟩⟩, ⟨0, none, ⟨1, 6⟩, ⟨1, 6⟩⟩]
+        100).map (·.map PTree.preorder)
+    | .error _ => none) = some (.error (.parsing ⟨1, 1⟩)) := by
+  decide +kernel
 example : ReAdv ⟨fun _ _ => none, fun _ _ _ => none⟩ := ⟨by simp, by simp⟩
 /-- a lexical error: `?` on line 2, column 3 (0-based) -/
 example : tokenize B ⟨[], [], [], 0⟩
     (reOfTable [] [⟨[some ⟨2, 1, 0, 2⟩, some ⟨2, 1, 1, 2⟩], []⟩,
                    ⟨[some ⟨1, 2, 0, 1⟩, some ⟨2, 1, 1, 2⟩, some ⟨3, 2, 2, 3⟩, none, some ⟨5, 1, 4, 5⟩], []⟩])
     ["ab".toList, " c ?d".toList] = .error (.lexical ⟨2, 3⟩) := by decide +kernel
+
+/-- `lex_error_line` / `lex_error_first` on that input: the first disjunct, with line 2 (1-based), column 3 -/
+example : ∃ i c line, Reach ⟨[], [], [], 0⟩
+      (reOfTable [] [⟨[some ⟨2, 1, 0, 2⟩, some ⟨2, 1, 1, 2⟩], []⟩,
+                     ⟨[some ⟨1, 2, 0, 1⟩, some ⟨2, 1, 1, 2⟩, some ⟨3, 2, 2, 3⟩, none, some ⟨5, 1, 4, 5⟩], []⟩])
+      ["ab".toList, " c ?d".toList] i c none ∧
+    ["ab".toList, " c ?d".toList][i]? = some line ∧ (⟨2, 3⟩ : Pos) = ⟨1 + i, c⟩ := by
+  rcases lex_error_first _ _ _ ⟨2, 3⟩ (by decide +kernel : tokenize B ⟨[], [], [], 0⟩
+      (reOfTable [] [⟨[some ⟨2, 1, 0, 2⟩, some ⟨2, 1, 1, 2⟩], []⟩,
+                     ⟨[some ⟨1, 2, 0, 1⟩, some ⟨2, 1, 1, 2⟩, some ⟨3, 2, 2, 3⟩, none, some ⟨5, 1, 4, 5⟩], []⟩])
+      ["ab".toList, " c ?d".toList] = .error (.lexical ⟨2, 3⟩)) with ⟨i, c, line, h1, h2, _, _, h5⟩ | ⟨k, hk⟩
+  · exact ⟨i, c, line, h1, h2, h5⟩
+  · exfalso
+    -- no span opener exists in this configuration: the scan is never inside a span
+    have : ∀ i c s, Reach ⟨[], [], [], 0⟩
+        (reOfTable [] [⟨[some ⟨2, 1, 0, 2⟩, some ⟨2, 1, 1, 2⟩], []⟩,
+                       ⟨[some ⟨1, 2, 0, 1⟩, some ⟨2, 1, 1, 2⟩, some ⟨3, 2, 2, 3⟩, none, some ⟨5, 1, 4, 5⟩], []⟩])
+        ["ab".toList, " c ?d".toList] i c s → s = none := by
+      intro i c s h
+      induction h with
+      | start => rfl
+      | token => rfl
+      | opener _ _ _ _ _ hk => simp at hk
+      | close => rfl
+      | miss _ _ _ _ ih => cases ih
+      | eol _ _ _ ih => exact ih
+    cases this _ _ _ hk
 
 end C04
